@@ -19,6 +19,7 @@ import (
 	"sync"
 	"sync/atomic"
 	"time"
+	"unsafe"
 
 	"github.com/pingcap/kvproto/pkg/pdpb"
 	"github.com/tikv/pd/server/config"
@@ -111,8 +112,54 @@ var (
 	sleepHook atomic.Value // func(time.Duration)
 )
 
-func vnow() time.Time  { return time.Unix(0, atomic.LoadInt64(&clockNow)+atomic.LoadInt64(&clockOff)) }
-func vmono() time.Time { return time.Unix(0, atomic.LoadInt64(&clockNow)) }
+// The virtual clock hands out time values WITH a monotonic reading, like time.Now()
+// does: the monotonic part follows the shared time line, the wall part is time line +
+// the executing member's wall offset. Code that compares such values with Sub/After/Before
+// therefore sees the monotonic line (unaffected by wall-clock steps), code that goes
+// through UnixNano sees the wall clock — exactly the distinction real processes live with.
+// (A clock that returned plain time.Unix values could not tell the two apart.)
+func vnow() time.Time {
+	return mkTime(atomic.LoadInt64(&clockNow)+atomic.LoadInt64(&clockOff), atomic.LoadInt64(&clockNow))
+}
+func vmono() time.Time { return mkTime(atomic.LoadInt64(&clockNow), atomic.LoadInt64(&clockNow)) }
+
+// timeRepr mirrors the layout of time.Time (wall, ext, loc); stable since Go 1.9.
+type timeRepr struct {
+	wall uint64
+	ext  int64
+	loc  *time.Location
+}
+
+var (
+	refOnce sync.Once
+	refTime time.Time // a real time.Now() value: carries a monotonic reading
+	refWall int64     // its wall clock in Unix nanoseconds
+)
+
+// mkTime builds a time value whose wall clock is wallNs (Unix ns) and whose monotonic
+// reading is refTime's reading + (monoNs - refWall).
+func mkTime(wallNs, monoNs int64) time.Time {
+	refOnce.Do(func() {
+		refTime = time.Now()
+		refWall = refTime.UnixNano()
+	})
+	t := refTime.Add(time.Duration(monoNs - refWall)) // shifts wall and monotonic together
+	r := (*timeRepr)(unsafe.Pointer(&t))
+	if r.wall>>63 == 0 {
+		// no monotonic reading (should not happen for a value derived from time.Now())
+		return time.Unix(0, wallNs)
+	}
+	// now move the wall part alone by (wallNs - monoNs)
+	const nsecMask = 1<<30 - 1
+	sec := int64(r.wall >> 30 & (1<<33 - 1))
+	nsec := int64(r.wall & nsecMask)
+	total := sec*1e9 + nsec + (wallNs - monoNs)
+	if total < 0 || total/1e9 >= 1<<33 {
+		return time.Unix(0, wallNs)
+	}
+	r.wall = 1<<63 | uint64(total/1e9)<<30 | uint64(total%1e9)
+	return t
+}
 
 func vsleep(d time.Duration) {
 	if f, ok := sleepHook.Load().(func(time.Duration)); ok && f != nil {
